@@ -22,7 +22,7 @@ REQUIRED_OBS = {"endurance_calls": 100, "plotfiles_written": 100, "written_onto_
                 "splitting_cases": 1, "multi_level": 20, "cli_runs": 10}
 CHAIN = {"quick": 2, "thorough": 20}
 TIMEOUT = {"quick": 600, "thorough": 3000}
-NAMES = ["ax", "ay", "az", "tagx", "tagy", "tagz", "rnd", "near", "cix", "ciy", "ciz"]
+NAMES = ["ax", "ay", "az", "tagx", "tagy", "tagz", "rnd", "near", "cix", "ciy", "ciz", "trc"]
 
 
 def cases(tier, seed):
@@ -139,7 +139,7 @@ def judge(out, m, vol, n, pos, L, fl):
             for ci, nm in enumerate(want):
                 a = arr[..., ci]
                 e = val[sl][..., names.index(nm)]
-                scale = slicemodel.scale_of(e[dec])
+                scale = slicemodel.field_scale(m, names.index(nm))
                 bad = dec & slicemodel.differs(a, e, slicemodel.value_tol(m, L, n) * scale)
                 if bad.any():
                     i, j = np.argwhere(bad)[0]
@@ -278,7 +278,7 @@ def run_case(case, work, rec):
                 plist = slicemodel.positions(m, L, n, rng, 2)
                 rng.shuffle(plist)
                 for cp in plist[:case["npos"]]:
-                    fl = rng.choice([list(NAMES), ["a" + "xyz"[n], "tag" + "xyz"[n], "rnd"], ["rnd"], ["tagx", "ay"], ["near", "az"],
+                    fl = rng.choice([list(NAMES), ["a" + "xyz"[n], "tag" + "xyz"[n], "rnd"], ["rnd"], ["tagx", "ay"], ["near", "az"], ["trc"], ["trc", "rnd"],
                                      ["ci" + "xyz"[n], "rnd"], ["ci" + "xyz"[n]]])
                     jobs.append((n, cp, limit, fl))
     for jn, (n, (cls, pos), limit, fl) in enumerate(jobs):
